@@ -176,6 +176,10 @@ def shard(ctx):
     P = int(ctx.params.get("placements", 2))
     nsets = int(ctx.params.get("nsets", 8))
     tasks = [(info, pidx) for pidx in range(P) for info in host]
+    # hostile allocations: an operand in the upper half of a register array twice the vector width
+    tasks += [(info, "hw") for info in host if any(a.kind == "reg" for a in info.args)]
+    # hostile call sites: a stride the instruction's own assertion forbids
+    tasks += [(info, "hs") for info in host if any(a.kind == "dram" and 0 in a.unit_stride for a in info.args)]
     mine = [t for j, t in enumerate(tasks) if j % ctx.nshards == ctx.shard]
     batch_n = int(ctx.params.get("batch", 8))
     batch_cases = int(ctx.params.get("batch_cases", 128))
@@ -196,6 +200,10 @@ def shard(ctx):
             proc = getattr(mod, meta["proc"])
         except Exception as e:
             # exo refuses the wrapper: either the generator is wrong or exo is conservative; never a violation
+            if pidx == "hs":
+                # the expected outcome of a hostile call site
+                ctx.stat("hostile_stride_sites_refused")
+                continue
             ctx.stat(key + "status|exo_reject")
             ctx.stat(key + "why|" + _sanitize(f"{type(e).__name__}: {e}"))
             continue
@@ -233,6 +241,10 @@ def _report(ctx, W, harness, info, pidx, pl, src, meta, ins, r):
     if r.unclean:
         ctx.stat(key + "unclean_inputs", r.unclean)
         ctx.stat("unclean_inputs", r.unclean)
+    if pidx == "hw" and r.status == "exo_reject":
+        # the expected outcome of a hostile allocation
+        ctx.stat("hostile_wide_registers_refused")
+        return
     if r.status in ("exo_reject", "no_input", "driver_error", "timeout", None):
         ctx.stat(key + "status|" + str(r.status))
         ctx.stat(key + "why|" + _sanitize(r.detail))
